@@ -16,7 +16,7 @@ def valid(d, m, y):
 def dayindex(d, m, y):
     return datetime.date(y, m, d).isoweekday() % 7 + 1
 
-def chunked(entries, n=4000):
+def chunked(entries, n=600):
     for i in range(0, len(entries), n):
         yield entries[i:i + n]
 
@@ -79,7 +79,7 @@ def generate(tier, rng):
         for y in (1600, 1900, 2000, 2024, 2400):
             for (d, m) in ((28, 2), (1, 3), (31, 12), (1, 1)):
                 dates.append((d, m, y))
-    for ch in chunked(dates, 3000):
+    for ch in chunked(dates, 600):
         ent = ['DAYINDEX(%d/%d/%d)' % t for t in ch]
         cases.append(Case(mode='repl', stdin=gen.join(ent), limits=BIG, meta=dict(gen='dayindex', dates=ch, sample=False)))
     acc = []
@@ -112,8 +112,8 @@ def generate(tier, rng):
             b = (db.day, db.month, db.year)
             for op in (['=', '<>', '<', '<=', '>', '>='] if tier == 'thorough' else rng.sample(['=', '<>', '<', '<=', '>', '>='], 2)):
                 ent.append('%d/%d/%d %s %d/%d/%d' % (a + (op,) + b)); exp.append((a, op, b))
-    for i in range(0, len(ent), 4000):
-        cases.append(Case(mode='repl', stdin=gen.join(ent[i:i + 4000]), limits=BIG, meta=dict(gen='date-compare', cmp=exp[i:i + 4000], sample=i == 0)))
+    for i in range(0, len(ent), 600):
+        cases.append(Case(mode='repl', stdin=gen.join(ent[i:i + 600]), limits=BIG, meta=dict(gen='date-compare', cmp=exp[i:i + 600], sample=i == 0)))
     # printing
     cases.append(Case(gen.join(['DECLARE d : DATE', 'd <- 5/3/2021', 'OUTPUT d', 'OUTPUT "on " & d', 'OUTPUT STRING(d)',
                                 'OPENFILE "f.txt" FOR WRITE', 'WRITEFILE "f.txt", d', 'CLOSEFILE "f.txt"']), meta=dict(gen='date-print')))
